@@ -254,14 +254,14 @@ theorem dataBytes_append (cfg : TableCfg) (a b : List (List KV)) :
 
 /-- reading the data block of the chunk `c` in a written table -/
 theorem dataBlock_chunk (t : TableR) (cfg : TableCfg) (hck : Cksum32 cfg.cksum) (hc : t.cksum = cfg.cksum)
-    (csL : List (List KV)) (c : List KV) (rest : List (List KV)) (fb : Option Bytes)
-    (hfile : t.file = tableFile cfg (csL ++ c :: rest) fb) (hsz : t.file.length < 2 ^ 32) :
+    (csL : List (List KV)) (c : List KV) (rest : List (List KV))
+    (hfile : ∃ post, t.file = dataBytes cfg (csL ++ c :: rest) ++ post) (hsz : t.file.length < 2 ^ 32) :
     t.dataBlock ⟨(dataBytes cfg csL).length, (Block.build cfg.restartInterval c).length⟩ =
       some (layoutR (enc cfg.restartInterval c) (restartsOf cfg.restartInterval c)) := by
-  obtain ⟨post, hpost⟩ := tableFile_data_prefix cfg (csL ++ c :: rest) fb
+  obtain ⟨post, hpost⟩ := hfile
   refine dataBlock_at t cfg hck hc (dataBytes cfg csL) (dataBytes cfg rest ++ post) c ?_ hsz
-  rw [hfile, hpost, dataBytes_append, dataBytes_cons]
-  simp only [List.nil_append, List.append_assoc]
+  rw [hpost, dataBytes_append, dataBytes_cons]
+  simp only [List.append_assoc]
 
 def resultOf : Option KV → Result KV
   | some kv => .ok kv
@@ -293,10 +293,10 @@ theorem dataBytes_le_file (cfg : TableCfg) (cs : List (List KV)) (fb : Option By
   rw [hpost]; simp only [List.nil_append, List.length_append]; omega
 
 theorem find_core (cfg : TableCfg) (hc : LawfulCmp cfg.cmp) (hck : Cksum32 cfg.cksum) (cs : List (List KV))
-    (fb : Option Bytes) (t : TableR) (hcmp : t.cmp = cfg.cmp) (hcks : t.cksum = cfg.cksum)
-    (hfile : t.file = tableFile cfg cs fb)
+    (t : TableR) (hcmp : t.cmp = cfg.cmp) (hcks : t.cksum = cfg.cksum)
+    (hfile : ∃ post, t.file = dataBytes cfg cs ++ post)
     (hidx : t.index = layoutR (enc 1 (ixE cfg 0 cs [])) (restartsOf 1 (ixE cfg 0 cs [])))
-    (hsz : (tableFile cfg cs fb).length < 2 ^ 32)
+    (hfsz : t.file.length < 2 ^ 32) (hixl : (ixB cfg cs).length < 2 ^ 32)
     (hixs : StrictSorted cfg.cmp (ixE cfg 0 cs []))
     (hcs : ∀ c ∈ cs, StrictSorted cfg.cmp c ∧ SmallKV c) (key : Bytes) :
     ∃ csL csR, cs = csL ++ csR ∧
@@ -305,11 +305,11 @@ theorem find_core (cfg : TableCfg) (hc : LawfulCmp cfg.cmp) (hck : Cksum32 cfg.c
       t.find key false = findTail cfg.cmp key csR := by
   obtain ⟨csL, csR, hsplit, hall, hdw, hhd⟩ := ixE_split cfg (fun e => cfg.cmp e.1 key == .lt) [] cs 0
   refine ⟨csL, csR, hsplit, hall, hhd, ?_⟩
-  have S := sizes_of cfg cs fb hsz
-  have hsix := smallKV_ix cfg cs fb hsz
-  have hseek := seekCursor_build hc 1 (ixE cfg 0 cs []) hsix hixs S.iLen key
-  have hfsz : t.file.length < 2 ^ 32 := by rw [hfile]; exact hsz
-  have hdl := dataBytes_le_file cfg cs fb
+  have hsix := smallKV_ix' cfg cs hixl
+  have hseek := seekCursor_build hc 1 (ixE cfg 0 cs []) hsix hixs hixl key
+  have hdl : (dataBytes cfg cs).length ≤ t.file.length := by
+    obtain ⟨post, hpost⟩ := hfile
+    rw [hpost]; simp only [List.length_append]; omega
   unfold TableR.find
   rw [hidx, hcmp, hseek, hdw]
   cases csR with
@@ -323,7 +323,7 @@ theorem find_core (cfg : TableCfg) (hc : LawfulCmp cfg.cmp) (hck : Cksum32 cfg.c
     simp only [ixE, cursorAt, Nat.zero_add]
     rw [BH.decode_encode' _ (by simp only; omega) (by simp only; omega)]
     simp only [Bool.false_eq_true, ↓reduceIte]
-    rw [dataBlock_chunk t cfg hck hcks csL c rest fb (by rw [hfile, hsplit]) hfsz]
+    rw [dataBlock_chunk t cfg hck hcks csL c rest (by rw [← hsplit]; exact hfile) hfsz]
     simp only
     have hbsz : (Block.build cfg.restartInterval c).length < 2 ^ 32 := by omega
     rw [seekCursor_build hc cfg.restartInterval c (hcs c hcm).2 (hcs c hcm).1 hbsz key]
@@ -357,8 +357,8 @@ theorem find_core (cfg : TableCfg) (hc : LawfulCmp cfg.cmp) (hck : Cksum32 cfg.c
         simp only
         rw [BH.decode_encode' _ (by simp only; omega) (by simp only; omega)]
         simp only
-        have hd2 := dataBlock_chunk t cfg hck hcks (csL ++ [c]) c2 rest2 fb
-          (by rw [hfile, hsplit]; simp) hfsz
+        have hd2 := dataBlock_chunk t cfg hck hcks (csL ++ [c]) c2 rest2
+          (by obtain ⟨post, hpost⟩ := hfile; exact ⟨post, by rw [hpost, hsplit]; simp⟩) hfsz
         rw [dataBytes_append, List.length_append] at hd2
         have : dataBytes cfg [c] = blockBytes cfg c := by simp [dataBytes]
         rw [this] at hd2
@@ -425,18 +425,16 @@ theorem sorted_chunk {cmp : Bytes → Bytes → Ordering} (cs : List (List KV)) 
 theorem small_chunk (cs : List (List KV)) (hs : SmallKV cs.flatten) (c : List KV) (hm : c ∈ cs) : SmallKV c :=
   fun kv hkv => hs kv (List.mem_flatten.mpr ⟨c, hm, hkv⟩)
 
-/-- C13(d) on the shape level -/
-theorem find_written (cfg : TableCfg) (hc : LawfulCmp cfg.cmp) (hsep : SepOK cfg) (hsucc : SuccOK cfg)
-    (hck : Cksum32 cfg.cksum) (cs : List (List KV)) (fb : Option Bytes)
-    (hfb : fb.isSome = cfg.filter.isSome) (hsz : (tableFile cfg cs fb).length < 2 ^ 32)
-    (hname : ∀ pol, cfg.filter = some pol → (filterMetaKey pol).length < 2 ^ 64) (v : Bool)
+/-- C13(d) for any reader over the data blocks and the index block of a written table -/
+theorem find_reader (cfg : TableCfg) (hc : LawfulCmp cfg.cmp) (hsep : SepOK cfg) (hsucc : SuccOK cfg)
+    (hck : Cksum32 cfg.cksum) (cs : List (List KV)) (t : TableR) (hcmp : t.cmp = cfg.cmp) (hcks : t.cksum = cfg.cksum)
+    (hfile : ∃ post, t.file = dataBytes cfg cs ++ post)
+    (hidx : t.index = layoutR (enc 1 (ixE cfg 0 cs [])) (restartsOf 1 (ixE cfg 0 cs [])))
+    (hfsz : t.file.length < 2 ^ 32) (hixl : (ixB cfg cs).length < 2 ^ 32)
     (hshape : cs = [[]] ∨ ChunksOK cfg cs []) (hsm : SmallKV cs.flatten) (key : Bytes) :
-    ∃ t, Table.open cfg v (tableFile cfg cs fb) = some t ∧ t.cmp = cfg.cmp ∧
-      t.find key false = resultOf (cs.flatten.find? fun e => cfg.cmp e.1 key != .lt) := by
-  obtain ⟨t, ho, hcmp, hcks, _, hfile, hidx, _, _⟩ := open_shape cfg hck cs fb hfb hsz hname v
-  refine ⟨t, ho, hcmp, ?_⟩
+    t.find key false = resultOf (cs.flatten.find? fun e => cfg.cmp e.1 key != .lt) := by
   rcases hshape with rfl | hok
-  · obtain ⟨csL, csR, hsplit, _, _, hfind⟩ := find_core cfg hc hck [[]] fb t hcmp hcks hfile hidx hsz
+  · obtain ⟨csL, csR, hsplit, _, _, hfind⟩ := find_core cfg hc hck [[]] t hcmp hcks hfile hidx hfsz hixl
       (by simp [ixE, StrictSorted]) (by intro c hm; simp at hm; subst hm; exact ⟨List.Pairwise.nil, by intro kv h; simp at h⟩) key
     rw [hfind]
     have : csR = [] ∨ csR = [[]] := by
@@ -452,11 +450,30 @@ theorem find_written (cfg : TableCfg) (hc : LawfulCmp cfg.cmp) (hsep : SepOK cfg
     rcases this with rfl | rfl
     · rfl
     · rfl
-  · obtain ⟨csL, csR, hsplit, hall, hhd, hfind⟩ := find_core cfg hc hck cs fb t hcmp hcks hfile hidx hsz
+  · obtain ⟨csL, csR, hsplit, hall, hhd, hfind⟩ := find_core cfg hc hck cs t hcmp hcks hfile hidx hfsz hixl
       (ixE_sorted hc hsep hsucc [] cs 0 hok)
       (fun c hm => ⟨sorted_chunk cs (by simpa using hok.sorted) c hm, small_chunk cs hsm c hm⟩) key
     rw [hfind, hsplit]
     exact findTail_spec hc hsep hsucc key csL csR (hsplit ▸ hok) hall hhd
+
+/-- the hypotheses of the reader-level lemmas, for the reader of the written file -/
+theorem written_file_facts (cfg : TableCfg) (cs : List (List KV)) (fb : Option Bytes) (t : TableR)
+    (hfile : t.file = tableFile cfg cs fb) (hsz : (tableFile cfg cs fb).length < 2 ^ 32) :
+    (∃ post, t.file = dataBytes cfg cs ++ post) ∧ t.file.length < 2 ^ 32 ∧ (ixB cfg cs).length < 2 ^ 32 := by
+  obtain ⟨post, hpost⟩ := tableFile_data_prefix cfg cs fb
+  exact ⟨⟨post, by rw [hfile, hpost]; rfl⟩, by rw [hfile]; exact hsz, (sizes_of cfg cs fb hsz).iLen⟩
+
+/-- C13(d) on the shape level -/
+theorem find_written (cfg : TableCfg) (hc : LawfulCmp cfg.cmp) (hsep : SepOK cfg) (hsucc : SuccOK cfg)
+    (hck : Cksum32 cfg.cksum) (cs : List (List KV)) (fb : Option Bytes)
+    (hfb : fb.isSome = cfg.filter.isSome) (hsz : (tableFile cfg cs fb).length < 2 ^ 32)
+    (hname : ∀ pol, cfg.filter = some pol → (filterMetaKey pol).length < 2 ^ 64) (v : Bool)
+    (hshape : cs = [[]] ∨ ChunksOK cfg cs []) (hsm : SmallKV cs.flatten) (key : Bytes) :
+    ∃ t, Table.open cfg v (tableFile cfg cs fb) = some t ∧ t.cmp = cfg.cmp ∧
+      t.find key false = resultOf (cs.flatten.find? fun e => cfg.cmp e.1 key != .lt) := by
+  obtain ⟨t, ho, hcmp, hcks, _, hfile, hidx, _, _⟩ := open_shape cfg hck cs fb hfb hsz hname v
+  obtain ⟨hpost, hfsz, hixl⟩ := written_file_facts cfg cs fb t hfile hsz
+  exact ⟨t, ho, hcmp, find_reader cfg hc hsep hsucc hck cs t hcmp hcks hpost hidx hfsz hixl hshape hsm key⟩
 
 theorem ixE_takeWhile_length (cfg : TableCfg) (p : KV → Bool) (tl : List KV) : ∀ (cs : List (List KV)) (off : Nat),
     ∃ n, n ≤ cs.length ∧ ((ixE cfg off cs tl).takeWhile p).length = n ∧
